@@ -1,23 +1,77 @@
 //! skasim: deterministic simulation harness for bacpop/ska.rust (see /verif/DESIGN.md)
 mod child;
+mod framework;
+mod gen;
+mod model;
 mod procsim;
+mod sched;
 mod simprog;
 mod util;
+
+use framework::{BatchPlan, Tier};
+
+fn usage() -> ! {
+    eprintln!("usage: skasim check <ID> quick|thorough | replay <file> | selftest <name> | exec ...");
+    std::process::exit(2);
+}
 
 fn main() {
     if std::env::var_os("SKASIM_CHILD").is_some() {
         child::child_main();
     }
     let args: Vec<String> = std::env::args().collect();
-    match args.get(1).map(|s| s.as_str()) {
+    let code = match args.get(1).map(|s| s.as_str()) {
+        Some("check") => {
+            let id = args.get(2).cloned().unwrap_or_else(|| usage());
+            let tier = match args.get(3).map(|s| s.as_str()) {
+                Some("thorough") => Tier::Thorough,
+                _ => Tier::Quick,
+            };
+            let q = tier == Tier::Quick;
+            let runs_env: Option<u64> = std::env::var("VERIF_RUNS").ok().and_then(|s| s.parse().ok());
+            let plan = |quick: u64, thorough: u64, cap_q: u64, cap_t: u64| BatchPlan {
+                runs: runs_env.unwrap_or(if q { quick } else { thorough }),
+                wall_cap_s: if q { cap_q } else { cap_t },
+            };
+            match id.as_str() {
+                "C11" => {
+                    // SCHED_ONLY=lo,lo-ref restricts the command kinds (debug / focused sweeps)
+                    let only: Option<Vec<&'static str>> = std::env::var("SCHED_ONLY").ok().map(|s| {
+                        s.split(',').map(|x| &*Box::leak(x.to_string().into_boxed_str())).collect()
+                    });
+                    framework::check(&sched::SchedWorkload { only }, tier, plan(600, 40000, 300, 2400))
+                }
+                _ => {
+                    eprintln!("no check for {id}");
+                    2
+                }
+            }
+        }
+        Some("replay") => {
+            let path = args.get(2).cloned().unwrap_or_else(|| usage());
+            let s = std::fs::read_to_string(&path).unwrap_or_else(|e| {
+                eprintln!("HARNESS-ERROR cannot read {path}: {e}");
+                std::process::exit(2)
+            });
+            let mut v: serde_json::Value = serde_json::from_str(&s).unwrap_or_else(|e| {
+                eprintln!("HARNESS-ERROR cannot parse {path}: {e}");
+                std::process::exit(2)
+            });
+            v["__path"] = serde_json::Value::String(path.clone());
+            match v["workload"].as_str().unwrap_or("") {
+                "sched" => framework::replay(&sched::SchedWorkload { only: None }, &v),
+                w => {
+                    eprintln!("HARNESS-ERROR unknown workload {w}");
+                    2
+                }
+            }
+        }
         Some("exec") => {
             // skasim exec SEED CORES POLICY HOOKS -- ska args   (debug aid; runs in the cwd)
-            let seed: u64 = args[2].parse().unwrap();
-            let cores: usize = args[3].parse().unwrap();
             let p = procsim::Proc {
                 argv: args[7..].to_vec(),
-                seed,
-                cores,
+                seed: args[2].parse().unwrap(),
+                cores: args[3].parse().unwrap(),
                 policy: args[4].clone(),
                 hooks: args[5].parse().unwrap(),
                 fsize: None,
@@ -32,13 +86,15 @@ fn main() {
                     print!("{}", String::from_utf8_lossy(&o.stdout));
                     eprint!("{}", String::from_utf8_lossy(&o.stderr));
                     eprintln!("{}", log.join("\n"));
+                    0
                 }
-                Err(e) => eprintln!("harness error {}", e.0),
+                Err(e) => {
+                    eprintln!("harness error {}", e.0);
+                    2
+                }
             }
         }
-        _ => {
-            eprintln!("usage: skasim check <ID> quick|thorough | replay <file> | selftest <name>");
-            std::process::exit(2);
-        }
-    }
+        _ => usage(),
+    };
+    std::process::exit(code);
 }
